@@ -78,7 +78,7 @@ def _prune_cache(keep):
             shutil.rmtree(os.path.join(CACHE, d), ignore_errors=True)
 
 
-def build_lib(variant="asan"):
+def _build_lib_unlocked(variant="asan"):
     """CMake+Ninja build of /repo's working tree, default options + hooks + variant flags.
     Returns the build dir (contains libOPNMIDI.a)."""
     th = tree_hash()
@@ -113,8 +113,8 @@ def lib_defines(bdir):
     return m.group(1).split() if m else []
 
 
-def build_harness(variant="asan"):
-    bdir = build_lib(variant)
+def _build_harness_unlocked(variant="asan"):
+    bdir = _build_lib_unlocked(variant)
     srcs = sorted(f for f in os.listdir(HARNESS_SRC) if f.endswith(".cpp"))
     h = hashlib.sha256()
     for f in sorted(os.listdir(HARNESS_SRC)):
@@ -148,6 +148,23 @@ def build_harness(variant="asan"):
         raise RuntimeError("harness link failed:\n" + p.stderr[-6000:])
     log("[build] harness (%s) in %.1fs" % (variant, time.time() - t0))
     return exe
+
+
+def _locked(fn, variant):
+    # checks may run side by side: configure/compile into the same cache directory is serialised
+    import fcntl
+    os.makedirs(CACHE, exist_ok=True)
+    with open(os.path.join(CACHE, "build.lock"), "w") as lk:
+        fcntl.flock(lk, fcntl.LOCK_EX)
+        return fn(variant)
+
+
+def build_lib(variant="asan"):
+    return _locked(_build_lib_unlocked, variant)
+
+
+def build_harness(variant="asan"):
+    return _locked(_build_harness_unlocked, variant)
 
 
 # ---------------------------------------------------------------- Lean side
